@@ -3,7 +3,7 @@
 # every property's quick check against it; any VIOLATION / SELF-CHECK-FAILED / BUILD-FAILED is printed.
 M=$(readlink -f $1); cd "$(dirname "$0")"
 WT=/tmp/fawt.$$
-git -C /repo worktree add -q --detach $WT HEAD || exit 2
+git -C /repo worktree add -q --detach $WT ${BASE:-HEAD} || exit 2
 trap 'git -C /repo worktree remove --force $WT; rm -rf .work/alt-$(echo $WT | md5sum | cut -c1-10)' EXIT
 git -C $WT apply $M/patch.diff || { echo "FA $M: PATCH-DOES-NOT-APPLY"; exit 3; }
 bad=0
